@@ -14,7 +14,7 @@ EXPLANATION = ('llsym (real-algebraic: sqrt(x) is the unique t >= 0 with t^2 = x
                'stated with a universally quantified segment parameter), dist <= margin, and a pair is dropped only if its true distance exceeds the margin; the normal is a unit vector pointing from the first geom to the second; '
                'pos is the midpoint between the two surface points; and mju_makeFrame turns ANY normal / tangent pair a collider can produce into an orthonormal right-handed frame whose first row is the normalised normal.')
 BOUNDS = {'quick': {'pairs': 'plane-sphere, sphere-sphere, sphere-capsule, plane-capsule', 'frame': 'any normal with |n| >= 1/2 and any tangent'}, 'thorough': {'same': 'plus plane-capsule with both end points in contact'}}
-OUTSIDE = ('box, cylinder, ellipsoid, mesh, height-field and SDF pairs; capsule-capsule (does not finish in nlsat); mj_geomDistance (GJK); contact assembly in mj_collideGeoms beyond the frame (condim, friction mixing); '
+OUTSIDE = ('box, cylinder, ellipsoid, mesh, height-field and SDF pairs; capsule-capsule (unit_capsule_capsule is written - both points on their segments, no closer pair over two universally quantified segment parameters - but exploration plus the optimality query did not finish within 20 minutes, so it is not registered); mj_geomDistance (GJK); contact assembly in mj_collideGeoms beyond the frame (condim, friction mixing); '
            'floating-point rounding (near-parallel normal/tangent pairs are decided in exact arithmetic).')
 ASSUMPTIONS = ['real-number semantics', 'plane normal and capsule axis are unit vectors (columns of rotation matrices)', 'radii and half-lengths positive, margin >= 0', 'mju_message(ERROR) does not return']
 BUDGET = {'quick': 600, 'thorough': 1500}
